@@ -6,7 +6,7 @@ open M_c04
      P ...same...  -> the same line computed by the model of the PINNED code (used to name the defect a tree still has)
    and abstract runs of the verifying side's message machine that props/C04.py derives from live scenarios:
      M <ver> <role c|s> <kex rsa|dhe> <cbmode> <cbarg> <fix_ske 0|1> <offered csv> <msg>...
-        msg: nocert | cert:<leafkey>:<rc>:<ca>:<maxdepth>:<status>.<flags>.<self>,... | ske:<alg>:<sig> | skeu (no signature) | shd | cke | cv:<alg>:<sig> | fin:<vd>
+        msg: ch:miss | ch:hit:<0|1> (first message: the run starts at the server's ClientHello) | nocert | cert:<leafkey>:<rc>:<ca>:<maxdepth>:<status>.<flags>.<self>,... | ske:<alg>:<sig> | skeu (no signature) | shd | cke | cv:<alg>:<sig> | fin:<vd>
         ideal signatures: sig = 10*signing key + (1 if the signed data is this handshake's own, else 0);
         fin vd: 1 = genuine; under RSA key transport 10*key+1 = computed by the holder of that key's private half
         -> ph=<done|dead:<alert>|wait:<n>> pops=<k> leaf=<key|->  *)
@@ -41,6 +41,8 @@ let parse_msg (t : string) : msg =
         | _ -> failwith ("cert " ^ c) in
       MCertificate (ni k, { v_rc = zi (int_of_string rc); v_chain = List.map one (String.split_on_char ',' certs);
                             v_ca = (ca = "1"); v_maxdepth = zi (int_of_string depth) })
+  | ["ch"; "miss"] -> MClientHello None
+  | ["ch"; "hit"; b] -> MClientHello (Some (b = "1"))
   | ["nocert"] -> MCertificateEmpty
   | ["ske"; alg; sg] -> MServerKeyExchange (ni "3", ni alg, ni sg)
   | ["skeu"] -> MServerKeyExchangeUnsigned (ni "3")
@@ -58,9 +60,11 @@ let () = iter_lines (fun l ->
                 p_kex = (if kex = "rsa" then KRsa else KDhe); p_cb = callback (int_of_string cbm) (int_of_string cba);
                 p_offered = List.map ni (List.filter (fun x -> x <> "" && x <> "-") (String.split_on_char ',' offered));
                 p_cr = ni "1"; p_sr = ni "2"; p_fix_ske_alg = (fixske = "1") } in
-      let s = run sig_ok fin_ok c [] (List.map parse_msg msgs) in
+      let ml = List.map parse_msg msgs in
+      let s = (match ml with MClientHello _ :: _ -> run_hello sig_ok fin_ok c ml | _ -> run sig_ok fin_ok c [] ml) in
       Printf.sprintf "ph=%s pops=%d leaf=%s"
         (match s.ph with PDone -> "done" | PDead a -> Printf.sprintf "dead:%d" (int_of_z a)
-                       | PWaitCert -> "wait:0" | PWaitSke -> "wait:1" | PWaitShd -> "wait:2" | PWaitCke -> "wait:3" | PWaitCv -> "wait:4" | PWaitFin -> "wait:5")
+                       | PHello -> "wait:9" | PWaitCert -> "wait:0" | PWaitSke -> "wait:1" | PWaitShd -> "wait:2" | PWaitCke -> "wait:3" | PWaitCv -> "wait:4" | PWaitFin -> "wait:5")
         (List.length s.pops) (match s.leaf with None -> "-" | Some k -> string_of_int (int_of_nat k))
+        ^ (match s.resumed with None -> "" | Some b -> Printf.sprintf " resumed=%d" (b2i b))
   | _ -> "?")
